@@ -103,6 +103,12 @@ Fixpoint cu_fr_nonzero (fuel : nat) (ne nf : Z) (con : list (@contact R)) (i : Z
 Definition D_nonneg (rows : list (@rowdesc R)) : Prop := Forall (fun r => 0 <= rD r) rows.
 Definition D_pos (rows : list (@rowdesc R)) : Prop := Forall (fun r => 0 < rD r) rows.
 
+(* list vectors: dot product, difference, convex combination *)
+Fixpoint dotl (a b : list R) : R :=
+  match a, b with x :: a', y :: b' => x * y + dotl a' b' | _, _ => 0 end.
+Definition vsub (a b : list R) : list R := map2 Rminus a b.
+Definition lincomb (lam : R) (a b : list R) : list R := map2 (fun x y => lam * x + (1 - lam) * y) a b.
+
 (* convexity of a function of one real variable *)
 Definition convex1 (c : R -> R) : Prop :=
   forall x y lam, 0 <= lam <= 1 -> c (lam * x + (1 - lam) * y) <= lam * c x + (1 - lam) * c y.
